@@ -477,7 +477,27 @@ def rule_r7(ctx) -> List[R.Inst]:
                             filt.append(c)
             if isinstance(x, ast.If) and any(isinstance(y, ast.Name) and y.id in perobj for y in ast.walk(x.test)):
                 filt.append(x.test)
-        if filt:
+        # ... and every per-column buffer is visited: the loop over the buffers has no early exit (a `break` / `return` at the first
+        # empty buffer drops every column to its right; empty buffers are skipped with `continue`)
+        def _exits(stmts, own=True):
+            for st in stmts:
+                if isinstance(st, ast.Return) or (own and isinstance(st, ast.Break)):
+                    yield st
+                elif isinstance(st, (ast.For, ast.While)):
+                    yield from _exits(st.body, False)
+                    yield from _exits(st.orelse, own)
+                elif not isinstance(st, (ast.FunctionDef, ast.ClassDef)):
+                    for fld in ("body", "orelse", "finalbody"):
+                        yield from _exits(getattr(st, fld, []) or [], own)
+                    for h in getattr(st, "handlers", []) or []:
+                        yield from _exits(h.body, own)
+        early = list(_exits(lp.body))
+        if early:
+            insts.append(R.viol(rid, key2, file, early[0].lineno,
+                                f"the loop over the per-column buffers of {nf.name} leaves at '{unparse(early[0])}': the buffers of every column "
+                                f"after that one are never expanded — a chart whose holds (rolls) do not start in column 0, or skip a column, "
+                                f"loses the ones to the right", construct=f"{nf.name}: early exit from the per-column loop"))
+        elif filt:
             insts.append(R.viol(rid, key2, file, filt[0].lineno,
                                 f"objects are kept or dropped by a test on their own value ('{unparse(filt[0])}'): every collected position "
                                 f"must yield an object — in particular a time of exactly 0.0 ms is falsy", construct=f"{nf.name}: filter {unparse(filt[0])}"))
